@@ -73,4 +73,24 @@ Definition eval20 (c : case20) : verdict :=
     end%N in
   {| corr_ok := corr; prop_ok := prop; cls := cls |}.
 
+(* A LARGE call (thousands of elements), as the harness writes it: weight signs and the caller's
+   array run-length encoded, lengths as binary numbers, and -- instead of the array after the
+   call -- the positions at which it differs from the array before, with the new values (the one
+   thing the harness computes is that comparison).  [big20] rebuilds the plain case; the verdict
+   is [eval20] of it, the same judgement as for a small call. *)
+Inductive obs_kind := KOk | KErr (code a b : N) | KPanic | KHang.
+
+Definition big20 (alg : N) (ws : list (wsign * N)) (points adj pc order : N) (p0 : list (N * N))
+                 (k : obs_kind) (changed : list (N * N)) : case20 :=
+  let p := of_runs p0 in
+  let after := patch_ids p 0 changed in
+  mk20 alg (of_runs ws) (N.to_nat points) (N.to_nat adj) pc order p
+       (match k with
+        | KOk => IOk after
+        | KErr code a b => IErr code a b
+        | KPanic => IPanic
+        | KHang => IHang
+        end)
+       after.
+
 Definition run20 (cs : list case20) := report (map eval20 cs).
